@@ -56,3 +56,45 @@ package wsp
 //@   ensures old(s.closed) || old(s.paused) || s.dataChannel == nil ==> ghostInt(s.dataChannel, "wsmessages") == old(ghostInt(s.dataChannel, "wsmessages"))
 //@   ensures !(old(s.closed) || old(s.paused)) && s.dataChannel != nil ==> ghostInt(s.dataChannel, "wsmessages") == old(ghostInt(s.dataChannel, "wsmessages")) + 1
 //@   ensures !(old(s.closed) || old(s.paused)) && s.dataChannel != nil && p.(*rtp.Packet).Channel < 4 && 0 <= s.transport.Channels[p.(*rtp.Packet).Channel] && s.transport.Channels[p.(*rtp.Packet).Channel] <= 255 ==> ghostInt(s.dataChannel, "lastlen") == 4 + len(p.(*rtp.Packet).Data)
+
+// ---- C11: a WSP data channel is attached only to the control channel of the same user on the same path -----------------
+// the HTTP front authorizes each WebSocket connection for its OWN path; the channel id a data connection presents is a
+// decimal counter value, not a secret: attaching it to a session is allowed only when it was opened by the same user on
+// the same path as the session's control channel (otherwise its owner would receive another user's media)
+//@ import "io"
+//@ import "bytes"
+//@ spec func wsPath(c websocket.Conn) string = uninterpreted
+//@ spec func wsUser(c websocket.Conn) string = uninterpreted
+//@ extern func (c websocket.Conn) Path() (p string)
+//@   modifies
+//@   ensures sameStr(p, wsPath(c))
+//@ extern func (c websocket.Conn) Username() (u string)
+//@   modifies
+//@   ensures sameStr(u, wsUser(c))
+//@ extern func (c websocket.Conn) TextTransport() (t websocket.Conn)
+//@   modifies
+//@   ensures t != nil
+//@ func DecodeRequest(r io.Reader, logger *xlog.Logger) (req *Request, err error)
+//@   trusted
+//@   modifies ghostAll("misc")
+//@   freshornil req
+//@   ensures err == nil ==> req != nil && req.Header != nil
+//@ func (req *Request) ResponseTo(buf *bytes.Buffer, statusCode int, statusText string, header map[string]string, payload string) ()
+//@   trusted
+//@   requires req != nil && buf != nil
+//@   modifies out(buf), ghostAll("misc")
+// (the sessions map holds control sessions: non-nil *Session values with their control connection; assumed)
+//@ extern func (m *sync.Map) Load(key interface{}) (value interface{}, ok bool)
+//@   modifies
+//@   ensures ok ==> typeIs(value, "*Session") && value.(*Session) != nil && value.(*Session).conn != nil && !held(&value.(*Session).lockW)
+//@ extern func (l *xlog.Logger) Error(msg string, fields ...xlog.Field) ()
+//@   modifies
+//@ extern func (l *xlog.Logger) Debugf(format string, args ...interface{}) ()
+//@   modifies
+//@ extern func (b *bytes.Buffer) String() (s string)
+//@   modifies
+//@ func (svr *Server) handshakeDataChannel(wsc websocket.Conn) ()
+//@   requires svr != nil && wsc != nil && svr.logger != nil
+//@   modifies all()
+//@   local session *Session
+//@   assert[call:setDataChannel] session != nil && session.conn != nil && wsPath(session.conn) == wsPath(wsc) && wsUser(session.conn) == wsUser(wsc)
